@@ -124,6 +124,7 @@ def run_e2(rep, modname, timeout, names=None, sweep=None, key=None):
     # native sweep over a small alphabet: a net under the engine, and the vacuity witness of each contract
     if sweep:
         n_calls = 0
+        n_failed = 0
         n_true = {}
         for fname, argsets in sweep(mod):
             if names and fname not in names:
@@ -142,12 +143,19 @@ def run_e2(rep, modname, timeout, names=None, sweep=None, key=None):
                     ok = False
                 n_true[fname] = n_true.get(fname, 0) + 1
                 if not ok:
+                    n_failed += 1
                     call = '%s(%s)' % (fname, ', '.join(repr(x) for x in a))
                     k = key(fname, call) if key else fname
                     rep.extra_violations.append({'key': k, 'message': '%s (native sweep)' % fname, 'call': call,
                                                  'section': 'native-sweep', 'condition': fname})
         es['native_sweep_calls'] = n_calls
+        es['native_sweep_failed'] = n_failed
         es['validated'] = es.get('validated', 0) + n_calls
+        # the sweep is deterministic work of this run: one obligation per (contract, argument tuple) evaluated on the real code
+        es['evaluations'] = es.get('evaluations', 0) + n_calls
+        es['distinct_nontrivial'] = es.get('distinct_nontrivial', 0) + n_calls
+        es['obligations'] = es.get('obligations', 0) + n_calls
+        es['discharged'] = es.get('discharged', 0) + (n_calls - n_failed)
         for fname, _ in sweep(mod):
             if (not names or fname in names) and not n_true.get(fname):
                 rep.harness_errors.append({'message': 'vacuity: precondition of %s never satisfied in the native sweep' % fname})
